@@ -12,6 +12,7 @@ A program is a JSON tree:
   {"op": "concatenate"|"stack", "axis": 0, "args": [P, ...]}
   {"op": "map_blocks", "fn": "double"|"addone", "a": P}
   {"op": "astype", "dtype": "float64", "a": P}
+  {"op": "transpose", "axes": [1, 0], "a": P}
 """
 import numpy as np
 
@@ -81,6 +82,8 @@ def build(p, xp, lazy):
         return a.map_blocks(MB[p["fn"]], dtype=a.dtype) if lazy else MB[p["fn"]](a)
     if op == "astype":
         return build(p["a"], xp, lazy).astype(p["dtype"])
+    if op == "transpose":
+        return build(p["a"], xp, lazy).transpose(tuple(p["axes"]))
     raise ValueError("unknown op " + op)
 
 
